@@ -130,7 +130,7 @@ def unknown_rights_dropped(ctx):
     ctx.floor(n, 1, 'refreshed chains produced')
     # keep_old = false: secrets only from the head of the master chain of the same right
     rb = F.fn('core::primitives::refresh')
-    fam = F.family(rb.key)
+    fam = lib.reach_bodies(F, rb.key)
     heads = []
     for body in fam:
         heads += body.calls(r'RevisionMap::<K, V>::get_latest$', r'MasterSecretKey::get_latest_right_sk$')
